@@ -1367,6 +1367,12 @@ func (enc *VP8Encoder) EncodeFrame() ([]byte, error) {
 		if !doSearch {
 			break // quality mode: single pass
 		}
+		// The frame is emitted from the coefficients of the last pass, so the
+		// quantizers must not be re-tuned after it (libwebp decides
+		// is_last_pass before touching q).
+		if pass == maxPasses-1 {
+			break
+		}
 		// Rate control: check if we hit the target.
 		if enc.adjustQuantForTarget() {
 			break
